@@ -60,19 +60,22 @@ def classify_run_error(msg):
 def classify_parse_error(msg):
     m = re.search(r'Failed to (?:parse|read) file "([^"]*)"', msg)
     file = m.group(1) if m else None
+    out = None
     if "is not closed" in msg:
         n = re.search(r"Block at line (\d+)", msg)
-        return {"file": file, "kind": "unclosed", "line": int(n.group(1)) if n else None}
-    if "Unexpected closed block" in msg:
+        out = {"file": file, "kind": "unclosed", "line": int(n.group(1)) if n else None}
+    elif "Unexpected closed block" in msg:
         n = re.search(r"Unexpected closed block at line (\d+)", msg)
-        return {"file": file, "kind": "unexpected-close", "line": int(n.group(1)) if n else None}
-    if "Failed to read file" in msg:
-        return {"file": file, "kind": "read"}
-    if "Unexpected hunk found" in msg:
-        return {"kind": "diff-unexpected-hunk"}
-    if "Target without source" in msg:
-        return {"kind": "diff-target-without-source"}
-    return None
+        out = {"file": file, "kind": "unexpected-close", "line": int(n.group(1)) if n else None}
+    elif "Failed to read file" in msg:
+        out = {"file": file, "kind": "read"}
+    elif "Unexpected hunk found" in msg:
+        out = {"kind": "diff-unexpected-hunk"}
+    elif "Target without source" in msg:
+        out = {"kind": "diff-target-without-source"}
+    if out is not None:
+        out["msg"] = msg[:600]
+    return out
 
 
 def data_json(d):
@@ -190,11 +193,13 @@ def compare_cli_validate(cli, model):
     mc = model.get("ctx", {})
     # an error whose wording is not recognised is still the error the model predicts (message texts are no observable)
     if cli.get("run", {}).get("err") == ["other"] and ("err" in mc or "err" in model.get("run", {})):
+        if "err" in mc and any(me.get("file") for me in mc["err"]) and not K.err_matches({"kind": "other", "msg": cli.get("raw_stderr")}, mc["err"]):
+            return [("cli.ctx.err", cli.get("raw_stderr"), mc["err"])]
         return [] if cli.get("exit") == 1 else [("cli.exit", cli.get("exit"), 1)]
     if "err" in mc or "err" in cli.get("ctx", {}):
         if "err" in mc and "err" in cli.get("ctx", {}):
             ie = cli["ctx"]["err"][0]
-            if not any(all(ie.get(k) == me.get(k) for k in ("file", "kind", "line") if k in me) for me in mc["err"]):
+            if not K.err_matches(ie, mc["err"]):
                 diffs.append(("cli.ctx.err", cli["ctx"]["err"], mc["err"]))
         else:
             diffs.append(("cli.ctx", cli.get("ctx") or cli.get("run"), mc))
